@@ -10,6 +10,10 @@ from sim import wire
 from sim.world import Node
 from vlib.harness import hyp_part
 
+import os
+
+# the quick tier runs in one process unless VERIF_JOBS asks for more (the box is shared)
+SERIAL = os.environ.get("VERIF_TIER") == "quick" and not os.environ.get("VERIF_JOBS")
 PID = "C43"
 TITLE = "Schema agreement is reported only when all live nodes agree"
 LEVEL = "exploration"
